@@ -125,6 +125,34 @@ func (c *Ctx) lexRun() map[string]*simpleVerdict {
 				}
 			}
 		}
+		// a backslash is ordinary content of a quoted string (the only way to write a quote inside a string is the
+		// doubled quote of the expression tokenizer): strings whose content is, starts with, contains and ends with one
+		// or two backslashes, a backslash before the other quote character and before ordinary characters, alone, in
+		// parentheses and followed by lexemes of every kind with and without a separator
+		{
+			sq, dq := "Quoted", "Quoted"
+			if kind == "expression" {
+				dq = "Word|Quoted"
+			}
+			bs := []lexItem{{`'C:\'`, sq, "q"}, {`'\'`, sq, "q"}, {`'\\'`, sq, "q"}, {`'a\\'`, sq, "q"}, {`'\d+\'`, sq, "q"}, {`'a\b'`, sq, "q"},
+				{`'\n'`, sq, "q"}, {`'\ '`, sq, "q"}, {`'say \"hi\'`, sq, "q"}, {`'\"'`, sq, "q"}, {`"D:\tmp\"`, dq, "q"}, {`"it\'s"`, dq, "q"}, {`"\"`, dq, "q"}, {`"\\"`, dq, "q"}}
+			if kind == "expression" {
+				bs = append(bs, lexItem{`'a\'''`, sq, "q"}, lexItem{`'''\'`, sq, "q"}, lexItem{`'\'''`, sq, "q"})
+			}
+			sp, open, cl := lexItem{" ", "Whitespace", " "}, lexItem{"(", "Symbol", "s"}, lexItem{")", "Symbol", "s"}
+			follow := []lexItem{{"abc", "Word", "w"}, {"12", "Integer", "n"}, {"'a'", "Quoted", "q"}, {"+", "Symbol", "s"}, {",", "Symbol", "s"}, {"<=", "Symbol", "s"}}
+			for i, q := range bs {
+				seqs = append(seqs, seq{q.text, []lexItem{q}}, seq{"(" + q.text + ")", []lexItem{open, q, cl}})
+				for _, f := range follow {
+					seqs = append(seqs, seq{q.text + " " + f.text, []lexItem{q, sp, f}}, seq{f.text + " " + q.text + " " + f.text, []lexItem{f, sp, q, sp, f}})
+					if f.kind != "q" {
+						seqs = append(seqs, seq{q.text + f.text, []lexItem{q, f}})
+					}
+				}
+				q2 := bs[(i+1)%len(bs)]
+				seqs = append(seqs, seq{q.text + " " + q2.text, []lexItem{q, sp, q2}}, seq{q.text + "," + q2.text + "," + q.text, []lexItem{q, follow[4], q2, follow[4], q}})
+			}
+		}
 		// every single-character symbol between two identifiers, exponent look-alikes among them
 		for _, b := range pool {
 			if b.kind != "s" || len([]rune(b.text)) != 1 || (kind == "generic" && strings.ContainsAny(b.text, "-._")) {
@@ -429,7 +457,7 @@ func (c *Ctx) lexRun() map[string]*simpleVerdict {
 
 func init() {
 	register(&Rule{ID: "TOK.lexemes", Floor: 2,
-		Doc: "the generic and the expression tokenizer evaluated abstractly over sequences of lexemes of every class (identifiers incl. Latin-1 / non-Latin starts, keywords in any case, integer, decimal and scientific numbers, quoted strings with doubled quotes, comments, whitespace runs, every single and multi-character symbol): singles, every ordered pair with a separator, pairs of unmergeable kinds without one, triples around every multi-character symbol and keyword, every single-character symbol (the dot included) between identifiers that may look like exponent parts: exactly those lexemes with exactly those classes come back",
+		Doc: "the generic and the expression tokenizer evaluated abstractly over sequences of lexemes of every class (identifiers incl. Latin-1 / non-Latin starts, keywords in any case, integer, decimal and scientific numbers, quoted strings with doubled quotes, comments, whitespace runs, every single and multi-character symbol): singles, every ordered pair with a separator, pairs of unmergeable kinds without one, triples around every multi-character symbol and keyword, every single-character symbol (the dot included) between identifiers that may look like exponent parts, quoted strings whose content is, contains and ends with backslashes (ordinary content) alone and followed by lexemes of every kind: exactly those lexemes with exactly those classes come back",
 		Run: func(c *Ctx) []*Obligation {
 			o := newObl("TOK.lexemes")
 			res := c.lexRun()
